@@ -34,6 +34,14 @@ def stepLine (line : String) : String :=
   | ["seal", p] => match hexLen p with
     | some n => emit (decideWith T.ingress .tcp .ingress true 1 (.pub .exit)) n
     | none => "bad-op"
+  | ["assoc", "closed", p] => match hexLen p with
+    -- a closed association has no key any more; whether Encrypt then fails or passes its input through is
+    -- probed on the compiled code (MM/Gen/C04.lean) — passing it through is the open finding
+    | some _ => if Gen.C04.closedUdpPassThrough then "plain" else "err"
+    | none => "bad-op"
+  | ["icmpsess", "closed", p] => match hexLen p with
+    | some _ => if Gen.C04.closedIcmpPassThrough then "plain" else "err"
+    | none => "bad-op"
   | ["assoc", k, p] => match hexLen p with
     -- an empty payload is returned unchanged only in plaintext mode; sealed output is never equal to its input
     | some n => emit (modeFor .udp (k == "1")) n
@@ -88,6 +96,8 @@ def spec (op out : String) : String :=
   else match tokens op, tokens out with
     -- exit-side wrappers without a key: plaintext mode exists by itself only as a capability; it is a
     -- violation when an endpoint HOLDING a key emits plaintext
+    | ["assoc", "closed", _], ["plain"] => "fail plaintext-after-close-udp"
+    | ["icmpsess", "closed", _], ["plain"] => "fail plaintext-after-close-icmp"
     | ["assoc", "1", _], ["plain"] => "fail plaintext-despite-key-udp"
     | ["icmpsess", "1", _], ["plain"] => "fail plaintext-despite-key-icmp"
     | ["mesh", "udpzero", _], ["ok", "echo", _, "leak", l] =>
